@@ -1,4 +1,6 @@
-// contract of V9::parse -- ASSUMED (closure captures &mut parser: outside Verus; see bounded stand-ins)
+// contract of V9::parse as used by the wrapper unit: clauses 1-2 say that result and final parser are a FUNCTION of
+// (parser, bytes) (v9_nom: determinism of safe Rust without interior randomness -- not an obligation); clause 3 (the remainder
+// is a suffix of the input) is discharged by V.v9.packet on the macro expansion of V9::parse_be / parse.
 pub fn parse<'a>(i: &'a [u8], parser: &mut V9Parser) -> (r: IResult<&'a [u8], V9>)
     ensures
         nom_view(r) == v9_nom(*old(parser), i@).0,
